@@ -506,6 +506,7 @@ func main() {
 	}
 	b.WriteString("].\n")
 	writePipe(&b, root, files, parsed)
+	writeSites(&b, root, files, parsed)
 	// side file for the harness: the literal texts that status-deciding code compares error texts with
 	if js, err := json.Marshal(map[string]interface{}{"phrases": phrases}); err == nil {
 		os.WriteFile(strings.TrimSuffix(outPath, ".v")+".json", js, 0644)
@@ -1151,4 +1152,170 @@ func writePipe(b *strings.Builder, root string, files []string, parsed map[strin
 	}
 	b.WriteString("].\n\n(* (method, path, controller constructor) of every route registered with a request pipeline *)\n")
 	b.WriteString("Definition gen_paths : list (string * string * string) := [\n  " + strings.Join(paths, ";\n  ") + "].\n")
+}
+
+
+// ---------------------------------------------------------------------------------------------------------
+// Expressions that can panic (index, slice, single-value type assertion) in code that runs on the HTTP handler
+// goroutine, i.e. outside the parser goroutines' deferred tamePanic: all of controller/, and in utils/unmarshal/
+// the bodies of Build / Do / doParse* (without their `go` literals), the parser constructors passed to
+// with*Parser and the PreParse closures, plus everything they call by name.
+
+type panicSite struct{ file, fn, kind, expr string }
+
+func collectSites(n ast.Node, rel, fn string, skipGo bool, out *[]panicSite, calls map[string]bool) {
+	twoValue := map[*ast.TypeAssertExpr]bool{}
+	ast.Inspect(n, func(x ast.Node) bool {
+		if as, ok := x.(*ast.AssignStmt); ok && len(as.Lhs) == 2 && len(as.Rhs) == 1 {
+			if ta, ok := as.Rhs[0].(*ast.TypeAssertExpr); ok {
+				twoValue[ta] = true
+			}
+		}
+		if vs, ok := x.(*ast.ValueSpec); ok && len(vs.Names) == 2 && len(vs.Values) == 1 {
+			if ta, ok := vs.Values[0].(*ast.TypeAssertExpr); ok {
+				twoValue[ta] = true
+			}
+		}
+		return true
+	})
+	ast.Inspect(n, func(x ast.Node) bool {
+		switch e := x.(type) {
+		case *ast.GoStmt:
+			if skipGo {
+				return false
+			}
+		case *ast.CallExpr:
+			if calls != nil {
+				if nm := calleeName(e.Fun); nm != "" {
+					calls[nm] = true
+				}
+			}
+		case *ast.IndexExpr:
+			*out = append(*out, panicSite{rel, fn, "index", exprString(e)})
+		case *ast.SliceExpr:
+			*out = append(*out, panicSite{rel, fn, "slice", exprString(e)})
+		case *ast.TypeAssertExpr:
+			if e.Type != nil && !twoValue[e] {
+				*out = append(*out, panicSite{rel, fn, "assert", exprString(e)})
+			}
+		}
+		return true
+	})
+}
+
+func writeSites(b *strings.Builder, root string, files []string, parsed map[string]*ast.File) {
+	var sites []panicSite
+	// package unmarshal: declarations by bare name (same directory only)
+	udecl := map[string][]*ast.FuncDecl{}
+	ufile := map[*ast.FuncDecl]string{}
+	for _, p := range files {
+		rel, _ := filepath.Rel(root, p)
+		if filepath.Dir(rel) != "utils/unmarshal" || strings.HasPrefix(filepath.Base(rel), "zz_verif") {
+			continue
+		}
+		for _, d := range parsed[p].Decls {
+			if fd, ok := d.(*ast.FuncDecl); ok && fd.Body != nil {
+				udecl[fd.Name.Name] = append(udecl[fd.Name.Name], fd)
+				ufile[fd] = rel
+			}
+		}
+	}
+	calls := map[string]bool{}
+	done := map[*ast.FuncDecl]bool{}
+	var reached []string
+	visit := func(fd *ast.FuncDecl) {
+		if done[fd] {
+			return
+		}
+		done[fd] = true
+		reached = append(reached, recvName(fd))
+		collectSites(fd.Body, ufile[fd], recvName(fd), true, &sites, calls)
+	}
+	for _, p := range files {
+		f := parsed[p]
+		rel, _ := filepath.Rel(root, p)
+		if filepath.Dir(rel) == "controller" {
+			for _, d := range f.Decls {
+				switch x := d.(type) {
+				case *ast.FuncDecl:
+					if x.Body != nil {
+						collectSites(x.Body, rel, recvName(x), false, &sites, nil)
+					}
+				case *ast.GenDecl:
+					for _, sp := range x.Specs {
+						if vs, ok := sp.(*ast.ValueSpec); ok && len(vs.Names) > 0 {
+							for _, v := range vs.Values {
+								collectSites(v, rel, vs.Names[0].Name, false, &sites, nil)
+							}
+						}
+					}
+				}
+			}
+		}
+		if filepath.Dir(rel) != "utils/unmarshal" || strings.HasPrefix(filepath.Base(rel), "zz_verif") {
+			continue
+		}
+		// roots: Build, Do, doParse*; parser constructors and PreParse closures
+		for _, d := range f.Decls {
+			if fd, ok := d.(*ast.FuncDecl); ok && fd.Body != nil && rel == "utils/unmarshal/builder.go" {
+				switch fd.Name.Name {
+				case "Build", "Do", "doParseLogs", "doParseSpans", "doParseProfile":
+					visit(fd)
+				}
+			}
+		}
+		ast.Inspect(f, func(n ast.Node) bool {
+			c, ok := n.(*ast.CallExpr)
+			if !ok {
+				return true
+			}
+			nm := calleeName(c.Fun)
+			if nm == "withLogsParser" || nm == "withSpansParser" || nm == "withProfileParser" || nm == "withParsedBody" {
+				for _, a := range c.Args {
+					if lit, ok := a.(*ast.FuncLit); ok {
+						collectSites(lit.Body, rel, "<"+nm+" argument>", true, &sites, calls)
+					}
+				}
+			}
+			// builder.PreParse = append(builder.PreParse, func(ctx *ParserCtx) error {...})
+			if nm == "append" && len(c.Args) == 2 && strings.HasSuffix(exprString(c.Args[0]), ".PreParse") {
+				if lit, ok := c.Args[1].(*ast.FuncLit); ok {
+					collectSites(lit.Body, rel, "<PreParse closure>", true, &sites, calls)
+				}
+			}
+			return true
+		})
+	}
+	// transitive callees by bare name inside package unmarshal (Decode is the goroutine's business)
+	for changed := true; changed; {
+		changed = false
+		var names []string
+		for nm := range calls {
+			names = append(names, nm)
+		}
+		sort.Strings(names)
+		for _, nm := range names {
+			if nm == "Decode" {
+				continue
+			}
+			for _, fd := range udecl[nm] {
+				if !done[fd] {
+					visit(fd)
+					changed = true
+				}
+			}
+		}
+	}
+	sort.Strings(reached)
+	b.WriteString("\n(* expressions that can panic on the handler goroutine (outside tamePanic): (file, function, index|slice|assert, expression) *)\n")
+	b.WriteString("Definition gen_handler_side_sites : list (string * string * string * string) := [\n")
+	for i, st := range sites {
+		sep := ";"
+		if i == len(sites)-1 {
+			sep = ""
+		}
+		fmt.Fprintf(b, "  (%s, %s, %s, %s)%s\n", coqStr(st.file), coqStr(st.fn), coqStr(st.kind), coqStr(st.expr), sep)
+	}
+	b.WriteString("].\n(* functions of package unmarshal that run on the handler goroutine (reached from Build/Do/doParse*/constructors/PreParse) *)\n")
+	b.WriteString("Definition gen_handler_side_functions : list string := " + strList(reached) + ".\n")
 }
